@@ -138,6 +138,8 @@ def _inits():
         ('zero_rows_plus_one', lambda: dictable(a=[], b=['x'], c=2.5), Model(['a', 'b', 'c'], [])),
         ('zero_rows_pairs', lambda: dictable([('a', []), ('b', 1)]), Model(['a', 'b'], [])),
         ('zero_row_table_plus_kw', lambda: dictable(dictable(a=[1, 'x'])[[False, False]], c=2.5), Model(['a', 'c'], [])),
+        # a column literally called 'key' (the name under which a derived-column function is told WHICH column it computes): the row's own cell wins
+        ('key_column', lambda: dictable(key=['x', 1], a=[1, None]), Model(['key', 'a'], [dict(key='x', a=1), dict(key=1, a=None)])),
         ('scalar_broadcast', lambda: dictable(a=[1, 'x', None], b='x'), Model(['a', 'b'], [dict(a=1, b='x'), dict(a='x', b='x'), dict(a=None, b='x')])),
         ('len1_broadcast', lambda: dictable(a=[1, 2.5], b=['x']), Model(['a', 'b'], [dict(a=1, b='x'), dict(a=2.5, b='x')])),
         ('none_broadcast', lambda: dictable(a=[1, 2.5], b=None), Model(['a', 'b'], [dict(a=1, b=None), dict(a=2.5, b=None)])),
@@ -209,7 +211,8 @@ def m_do(rows, funcs, keys):
 F_DERIVE = {
     # functions that read NO column: a constant, and one that only takes `key` (the name of the column being computed)
     'c=const()': (dict(c=lambda: 1), [], lambda r: dict(r, c=1)),
-    'b=key': (dict(b=lambda key: key), [], lambda r: dict(r, b='b')),
+    'b=key': (dict(b=lambda key: key), [], lambda r: dict(r, b=r.get('key', 'b') if 'key' in r else 'b')),      # (a column called key wins over the column's name)
+    'c=(key,a)': (dict(c=lambda key, a: (key, a)), ['key', 'a'], lambda r: dict(r, c=(r['key'], r['a']))),
     'c=a': (dict(c=lambda a: a), ['a'], lambda r: dict(r, c=r['a'])),
     'b=a': (dict(b=lambda a: a), ['a'], lambda r: dict(r, b=r['a'])),
     'c=a|b': (dict(c=lambda a, b: b if a is None else a), ['a', 'b'], lambda r: dict(r, c=r['b'] if r['a'] is None else r['a'])),
@@ -484,8 +487,8 @@ def apply_op(op, t, m):
                 mp = lambda c: 'c' if c == 'a' else c
                 res = t.rename(a='c')
             elif op[1] == 'rot':
-                mp = lambda c: ROT[c]
-                res = t.rename(lambda k: ROT[k])
+                mp = lambda c: ROT.get(c, c)
+                res = t.rename(lambda k: ROT.get(k, k))
             elif op[1] == 'swap_ab':
                 mp = lambda c: {'a': 'b', 'b': 'a'}.get(c, c)
                 res = t.rename(a='b', b='a')               # two cooperating renames in ONE call
